@@ -18,7 +18,7 @@ PROPS['C10'] = dict(
     level_text=('Unbounded deductive proof (Verus/Z3) of contracts spliced onto the text of switch.rs cut from /repo on every run; '
                 'Kani (CBMC) full-domain harnesses on the unextracted functions. Proof is the right level because the property is '
                 'universally quantified over expressions, operands and thresholds and is a per-call input/output relation.'),
-    level_note='Trusted: rustc, Verus+Z3, Kani+CBMC, the extractor; assumed: the parser emits the prefix encoding of A5. The two assumptions inside the Verus unit are each checked by Kani on the real code: the ArrayDeque(Saturating) contract (c10_k_arraydeque_contract, complete for capacity 8) and the leaf-iterator split R5 (c10_b_leaf_*, bounded environment, complete for the 8-entry histories).',
+    level_note='Trusted: rustc, Verus+Z3, Kani+CBMC, the extractor; assumed: the LEAF arms of the parser-side compiler emit their leaf words (its operator arm and prologue are verified as fragments, A6). The two assumptions inside the Verus unit are each checked by Kani on the real code: the ArrayDeque(Saturating) contract (c10_k_arraydeque_contract, complete for capacity 8) and the leaf-iterator split R5 (c10_b_leaf_*, bounded environment, complete for the 8-entry histories).',
     technique='contract-based deductive verification (Verus requires/ensures/invariants on extracted real code + Kani harnesses)',
     explanation=('Contracts on the real switch.rs functions. Verus (unbounded): (A1) lossy tick codec equals its documented spec and '
                  'round-trips within the documented resolution; (A2) every OpCode constructor followed by opcode_type decodes to the operand it '
@@ -28,7 +28,7 @@ PROPS['C10'] = dict(
                  'termination, stack never overflows, expect/unreachable!/index sites unreachable; (A4) SwitchActions::next returns the first firing '
                  'case from case_index on, break ends the iteration, fallthrough continues; (A5) theorem_written_condition: for every written condition tree '
                  '(leaves, and/or/not with >= 1 operand, depth <= 8) the prefix encoding with absolute end indices satisfies the evaluator precondition and '
-                 'sem_top(enc) is the meaning of the tree (structural induction over mutually recursive ghost datatypes; new_bool is proved to build the operator word enc uses). Kani: the same codec facts on the unextracted functions '
+                 'sem_top(enc) is the meaning of the tree (structural induction over mutually recursive ghost datatypes; new_bool is proved to build the operator word enc uses); (A6) the COMPILER parser/src/cfg/switch.rs::parse_switch_case_bool, as FRAGMENTS of the real function: the prologue (size/depth checks) and the and/or/not arm (placeholder, recursion over the operands, back-patching of the absolute end index) satisfy the contract compiles(e, depth, before, after) = `after == before + enc(tree(e), |before|)` and nesting <= 9 - depth, given that contract for the recursive calls (induction step; the leaf arms are assumed to satisfy it) - plus the keyword table read from the dispatch closure (or/and/not denote their own operator). Kani: the same codec facts on the unextracted functions '
                  'over full operand domains, and each leaf arm of the real evaluate_boolean against the leaf meaning the Verus proof assumes (R5 split).'),
     verus=[dict(unit='switch', cex={'evaluate_boolean': ['c10_b_shape_nested_last_then_more', 'c10_b_shape_nested_first', 'c10_b_shape_nested_last', 'c10_b_shape_toplevel_list'], 'next': ['c10_b_case_iteration']},
                 fallback=['c10_b_shape_nested_last_then_more', 'c10_b_shape_nested_first', 'c10_b_shape_nested_last', 'c10_b_shape_toplevel_list', 'c10_b_case_iteration'])],
@@ -54,7 +54,8 @@ PROPS['C10'] = dict(
         H('keyberon', 'action::switch', 'c10_b_shape_toplevel_list', kind='bounded', tier='thorough', bound='fixed shape (op1 a b) c + empty list'),
     ],
     assumptions=[
-        'the parser emits lenc(l, 0) (the encoding of A5) for a written condition l: parse_switch_case_bool is outside both verifiers, so a compiler bug is invisible here',
+        'compiler (A6): only the prologue and the and/or/not arm of parse_switch_case_bool are verified, as fragments wrapped in synthetic signatures (rewrite Rfrag; bail_expr! -> return Err (R13), `l.iter().skip(n)` -> assumed-equivalent slice helper (R14), `ops[i] = e` -> `ops.set(i, e)` (R15)). ASSUMED: the seven leaf arms (key, key-history, key-timing, input, input-history, layer, base-layer: string matching / closures / error macros, outside both verifiers) append exactly their leaf words; the arm is entered with l = the list of the expression and op = the variant its head keyword maps to (the keyword table itself is read from the source and checked); the meta-level induction over the expression that glues prologue + arm + leaf arms; the top-level loop in parse_switch (`for op in key_match.iter() { parse_switch_case_bool(1, ..) }`)',
+        'operators without operands, e.g. `(or)`, are accepted by the parser but excluded by the property statement ("every operator with at least one operand"): the compiler contract promises pwf (nesting, leaf words) and A5 additionally needs has_operands',
         'hand-off of fired switch actions into the action queue and fork live in Layout::do_action (not under contract)',
     ],
     trusted_base=['rustc', 'Verus 0.2026.09.13 / Z3', 'extractor lib/rustcut.py + lib/verusgen.py (rewrites logged in rewrites_applied)'],
@@ -130,15 +131,17 @@ PROPS['C03'] = dict(
 
 L = 'keyberon/src/layout.rs '
 PROPS['C06'] = dict(
-    level='other',
-    level_text=('Bounded contract check (Kani/CBMC) of the three OneShotState methods on the real crate: the full postcondition and frame of '
-                'handle_press / handle_release / tick_osh for every state whose tables hold <= 3 coordinates (capacity 16; the wrap of a full '
-                'table is a separate harness), all four end variants, all u16 timeouts/delays. Bounded stand-in, not a proof; the call sites '
+    level='proof',
+    level_text=('Deductive proof (Verus, unbounded) of the three OneShotState methods, text cut from keyberon/src/layout.rs each run: the full '
+                'postcondition and frame of handle_press / handle_release / tick_osh for every table size up to the real capacity 16, all four end '
+                'variants, all u16 timeouts/delays, against an ASSUMED contract for arraydeque::ArrayDeque(Wrapping) and heapless::Vec. '
+                'The same postconditions are cross-checked by bounded Kani harnesses that execute the REAL arraydeque/heapless code '
+                '(tables <= 3 entries, plus the wrap of a full table) - bounded, not counted as proved. Partial for C06 as a whole: the call sites '
                 'in Layout::do_action / dequeue are not under contract.'),
-    level_note='Trusted: rustc, Kani 0.68 + CBMC 6.11. Not decided: that every non-one-shot action calls handle_press(Other); the deferred release path through dequeue; stacking through Layout.',
-    technique='contract harnesses (Kani/CBMC): symbolic pre-state, postcondition + frame asserted, must-fail twin, bound-attained covers',
-    design_ref='DESIGN.md section 4, C06',
-    explanation='OneShotState::{handle_press, handle_release, tick_osh}: postconditions taken from the property statement (press variants end within the rapid-event delay; release variants end on the release of the first following key; pcancel on re-press; held one-shot acts as plain key; expiry clears everything so nothing later is affected). handle_release additionally has an UNBOUNDED Verus proof (unit oneshot: every table size up to the real capacity 16, including the eviction of the oldest deferred release) against the assumed ArrayDeque(Wrapping) contract; handle_press and tick_osh use closures / drain().collect() and stay bounded.',
+    level_note='Trusted: rustc, Verus 0.2026.09.13 + Z3, assumed ArrayDeque/heapless contracts (cross-checked bounded by Kani on the real crates), Kani 0.68 + CBMC 6.11. Not decided: that every non-one-shot action calls handle_press(Other); the deferred release path through dequeue; stacking through Layout.',
+    technique='function contracts discharged by Verus on mechanically extracted text (unbounded) + bounded Kani contract harnesses on the real crate (cross-check of the assumed container contracts, counterexample replay)',
+    design_ref='DESIGN.md section 4, C06; 9.1b',
+    explanation='OneShotState::{handle_press, handle_release, tick_osh}: postconditions taken from the property statement (press variants end within the rapid-event delay; release variants end on the release of the first following key; pcancel on re-press of an active one-shot key; a held one-shot key acts as the plain key (its deferred release is forgotten on re-press); expiry exactly when the last millisecond elapses or an end was requested, and it clears everything so nothing later is affected; the 17th deferred release evicts the oldest instead of being lost). All three are proved UNBOUNDED by Verus (unit oneshot) against the assumed ArrayDeque(Wrapping)/heapless contract; the closure passed to retain() is annotated mechanically (R12: its ensures clause is generated from its own body text, so a changed predicate changes the spec it is checked with).',
     verus=[dict(unit='oneshot')],
     kani=[
         H('keyberon', 'layout', 'c06_b_press_other', kind='bounded', bound='each table <= 3 coordinates', functions=[L + 'OneShotState::handle_press']),
@@ -151,9 +154,10 @@ PROPS['C06'] = dict(
     ],
     assumptions=[
         'call sites in Layout::do_action (handle_press(Other) on every non-one-shot action) and Layout::dequeue are NOT under contract',
-        'tables with more than 3 entries are covered only by the overflow harness',
+        'Verus: arraydeque::ArrayDeque<_, N, Wrapping>::{new,is_empty,contains,push_back,iter,extend,clear,drain(..),retain} and heapless::Vec FromIterator, core::cmp::min/max at u16: ASSUMED contracts in contracts/oneshot.spec.rs (retain: predicate called once per element front to back; extend/push_back on a full deque keep the newest N; a deque never exceeds N)',
+        'Kani: tables with more than 3 entries are covered only by the overflow harness (bounded cross-check; the real arraydeque 0.5.1 / heapless 0.7 are compiled and symbolically executed there, not assumed)',
     ],
-    trusted_base=['rustc', 'Kani 0.68.0 / CBMC 6.11.0 / CaDiCaL', 'arraydeque 0.5.1 and heapless 0.7 are compiled and symbolically executed, not assumed'],
+    trusted_base=['rustc', 'Verus 0.2026.09.13 / Z3', 'Kani 0.68.0 / CBMC 6.11.0 / CaDiCaL'],
 )
 
 PROPS['C05'] = dict(
